@@ -167,6 +167,10 @@ theorem replaceFailedProxy_spec (s : Store) (f choice : String) :
     (∃ p name, s.findProxy f = some p ∧ p.cluster = some name ∧ s.findCluster name = none ∧
       replaceFailedProxy s f choice = (s.bump, R.err .clusterNotFound)) ∨
     (∃ p name cl0, s.findProxy f = some p ∧ p.cluster = some name ∧ s.findCluster name = some cl0 ∧
+      -- ordered mode: the takeover, a second epoch bump, no failed mark, no replacement
+      ((s.ordered = true ∧
+        replaceFailedProxy s f choice = ((takeoverMaster s name f).1.bump, R.ok none)) ∨
+       s.ordered = false ∧
       ((∃ np cl, generateNewFreeProxy (afterTakeover s name f) f choice = R.ok np ∧
           (afterTakeover s name f).findCluster name = some cl ∧
           replaceFailedProxy s f choice = (replaceResult (afterTakeover s name f) name f cl np, R.ok (some np.addr))) ∨
@@ -179,7 +183,7 @@ theorem replaceFailedProxy_spec (s : Store) (f choice : String) :
        (∃ np, generateNewFreeProxy (afterTakeover s name f) f choice = R.ok np ∧
           (afterTakeover s name f).findCluster name = none ∧
           replaceFailedProxy s f choice =
-            ((afterTakeover s name f).bump, R.panic "replace_failed_proxy: get cluster")))) := by
+            ((afterTakeover s name f).bump, R.panic "replace_failed_proxy: get cluster"))))) := by
   unfold replaceFailedProxy
   cases hf : s.findProxy f with
   | none => exact Or.inl ⟨rfl, rfl⟩
@@ -198,6 +202,12 @@ theorem replaceFailedProxy_spec (s : Store) (f choice : String) :
           rw [← hok]
         rw [htk]
         simp only
+        have hord := Ord.takeoverMaster_ordered s name f
+        by_cases ho : (takeoverMaster s name f).1.ordered = true
+        · rw [if_pos ho]
+          exact Or.inl ⟨by rw [← hord]; exact ho, rfl⟩
+        rw [if_neg ho]
+        refine Or.inr ⟨by rw [← hord]; simpa using ho, ?_⟩
         show _ ∨ _ ∨ _ ∨ _ ∨ _
         change
           (∃ np cl, generateNewFreeProxy (afterTakeover s name f) f choice = R.ok np ∧ _) ∨ _
